@@ -14,6 +14,13 @@ Definition close_tol (t a b : Q) : bool :=
   Qle_bool (Qabs (a - b)) (t * Qmax' 1 (Qmax' (Qabs a) (Qabs b))).
 Definition close (a b : Q) : bool := close_tol tol a b.
 
+(* closeness relative to the magnitude `mag` of the INPUT data: a result obtained by cancellation (e.g. a signed
+   distance of 1e-8 between coordinates of size 1e8) carries rounding error relative to the inputs, not to itself *)
+Definition close_mag (mag a b : Q) : bool :=
+  Qle_bool (Qabs (a - b)) (tol * Qmax' 1 (Qmax' mag (Qmax' (Qabs a) (Qabs b)))).
+Definition fl_close_mag (mag m : Q) (o : fl) : bool :=
+  match o with Fin q => close_mag mag m q | _ => false end.
+
 Definition fl_close (m : Q) (o : fl) : bool :=
   match o with Fin q => close m q | _ => false end.
 Definition fl_is_nan (o : fl) : bool := match o with FNan => true | _ => false end.
@@ -30,6 +37,10 @@ Definition vec_close (m : vec3 Q) (o : list fl) : bool := list_close (vlist m) o
 Definition vecs_close (m : list (vec3 Q)) (o : list (list fl)) : bool := all2 vec_close m o.
 Definition mat4_close (m : mat4 Q) (o : list fl) : bool := list_close (mlist m) o.
 Definition mat3_close (m : mat3 Q) (o : list fl) : bool := list_close (m3list m) o.
+
+Definition list_close_mag mag (m : list Q) (o : list fl) : bool := all2 (fl_close_mag mag) m o.
+Definition vec_close_mag mag (m : vec3 Q) (o : list fl) : bool := list_close_mag mag (vlist m) o.
+Definition vecs_close_mag mag (m : list (vec3 Q)) (o : list (list fl)) : bool := all2 (vec_close_mag mag) m o.
 
 Definition nat_list_eqb (a b : list nat) : bool := all2 Nat.eqb a b.
 Definition Z_list_eqb (a b : list Z) : bool := all2 Z.eqb a b.
